@@ -98,6 +98,31 @@ class Kernel:
                 ''.join('\n    ' + self.tr.funcs[h]['demangled'][:300] for h in hits[:6])))
         return hits[0]
 
+    def resolve(self, job):
+        """IR name of the job's function under contract"""
+        if getattr(job, 'via', None):
+            root = job.via
+            if root not in self.tr.funcs:
+                raise Infra('shim %s not in kernel %s' % (root, self.name))
+            rx = re.compile(job.target)
+            seen, frontier = {root}, [root]
+            while frontier:
+                hits = [n for n in frontier if n != root and rx.search(self.tr.funcs[n]['demangled'])]
+                if hits:
+                    hits = sorted(set(hits))
+                    if len(hits) > 1:
+                        raise Infra('target pattern %r matches %d functions at the same call depth below %s' % (job.target, len(hits), root))
+                    return hits[0]
+                nxt = []
+                for n in frontier:
+                    for c in self.tr.funcs[n]['calls']:
+                        if c not in seen:
+                            seen.add(c)
+                            nxt.append(c)
+                frontier = nxt
+            raise Infra('target pattern %r not reachable from shim %s in kernel %s' % (job.target, root, self.name))
+        return self.find(job.target)
+
     def find_all(self, pattern):
         rx = re.compile(pattern)
         return [n for n, i in self.tr.funcs.items() if rx.search(i['demangled'])]
@@ -108,7 +133,8 @@ class Job:
                  harness=None, unwind=None, solvers=('minisat',), timeout=120, klass='proof', bound='',
                  shim=None, shim_types=None, oracle=None, canary='ensures', skip_this=None, prop=None,
                  extra_c='', loop_contracts=False, note='', inline_ok=True, cbmc_flags=(), inputs=None,
-                 expect_fail=None, finding=None, layer=0, object_bits=12, mem_gb=12, cex_filter=None, optional=False):
+                 expect_fail=None, finding=None, layer=0, object_bits=12, mem_gb=12, cex_filter=None, optional=False, via=None):
+        self.via = via
         self.optional = optional
         self.name = name
         self.kernel = kernel
@@ -445,7 +471,7 @@ def c_ptr_target(tr, t):
 
 def build_job_c(job, kern, canary=False):
     tr = kern.tr
-    tgt = kern.find(job.target)
+    tgt = kern.resolve(job)
     fi = tr.funcs[tgt]
     if not fi['ok'] or fi.get('stub'):
         raise Infra('target %s not translatable: %s' % (fi['demangled'][:200], fi['reason']))
@@ -611,7 +637,7 @@ def run_job(job, kern, wd):
     os.makedirs(jd)
     res.dir = jd
     try:
-        if job.optional and not kern.find_all(job.target):
+        if job.optional and not job.via and not kern.find_all(job.target):
             res.status = 'skipped'
             res.detail = 'function not instantiated in this configuration'
             res.wall_s = time.time() - t0
